@@ -173,7 +173,11 @@ def run(ck):
             continue
         e = list(te)[0]
         other = [x for x in ents if x != e][0]
-        for label, blk in (("fits", n.body), ("wraps", n.orelse)):
+        # the arm that builds the interval in two pieces is the wrap-around arm, whatever the polarity of the test
+        def pieces(blk):
+            return sum(1 for st in blk for x in ast.walk(st) if isinstance(x, ast.Call) and isinstance(x.func, ast.Name) and x.func.id == "interval")
+        arms = sorted((n.body, n.orelse), key=pieces)
+        for label, blk in (("fits", arms[0]), ("wraps", arms[1])):
             used = set(entity_of(x.id) for st in blk for x in ast.walk(st) if isinstance(x, ast.Name)) - set([None])
             k += 1
             ck.ob("R4", "State.may_interfer:%s-interval:%s" % (e, label), other not in used, df.where(n),
